@@ -33,7 +33,8 @@ PLAN = {'quick': {'shards': 2, 'timeout': 1800, 'budget': 900},
 N_CASES = {'quick': 40000, 'thorough': 400000}
 
 ALPHA_COMMON = '0123456789' * 3 + '-:+.,TWZ' * 2 + ' \t_tzwx/'
-ALPHA_RARE = ['\x00', '\n', 'e', 'E', 'a', 'Q', '٣', '２', 'é', '−', '²', '٠', '+', '-',
+ALPHA_RARE = ['\\', ';', '!', '(', ')', '*', '=', '?', '@', '[', ']', '^', '|', '~', '"', "'", '#', '%', '&', '<', '>', '`', '{', '}', '$',
+              '\x00', '\n', 'e', 'E', 'a', 'Q', '٣', '２', 'é', '−', '²', '٠', '+', '-',
               '00', '-0', '+1', ' 7', '1 ', '1_', '_1', '٣', '\xa0']
 
 
@@ -244,6 +245,33 @@ def directed(ctx, handler, parsers, P):
                     getattr(parsers[None], entry)(piece)
                 except Exception:
                     pass
+    # every printable ASCII character substituted at (and inserted before) every position of canonical texts of each
+    # form: the monitor decides from the recogniser whether the result still has an ISO reading
+    import string
+    canon = ['2014-02-04T12:30:45.123456+05:30', '20140204T123045,5Z', '2014-W06-2T12:30', '2014W062 1230-0500', '2014-035T12:30:45', '2014035',
+             '2014-02', '12:30:45.5', '123045,25', '+05:30', '-0500', 'Z', '2014-02-04 24:00']
+    chars = string.punctuation + string.ascii_letters[::4] + ' \t'
+    for k, text in enumerate(canon):
+        if k % ctx.nshards != ctx.shard:
+            continue
+        entries = ['isoparse'] if len(text) > 10 or text.startswith('2014') else ['parse_isotime', 'parse_tzstr', 'isoparse']
+        for i in range(len(text) + 1):
+            for ch in chars:
+                for new in ((text[:i] + ch + text[i + 1:]) if i < len(text) else None, text[:i] + ch + text[i:]):
+                    if new is None:
+                        continue
+                    handler.current = ('ascii-sweep', ['sub' if len(new) == len(text) else 'ins'])
+                    for entry in entries:
+                        try:
+                            getattr(parsers[None], entry)(new)
+                        except Exception:
+                            pass
+                    if text.startswith('2014') and len(text) <= 10:
+                        try:
+                            parsers[None].parse_isodate(new)
+                        except Exception:
+                            pass
+                    ctx.count('ascii_sweep_texts')
     # constructor: the configured separator must be a single non-numeric ASCII character
     for sep in ('', 'TT', '1', u'é', '−'):
         ctx.ev()
